@@ -56,7 +56,7 @@ def main(tier, names=None):
     if names:
         corpus = [c for c in corpus if c["name"] in names]
     t0 = time.time()
-    with ThreadPoolExecutor(max_workers=5) as ex:
+    with ThreadPoolExecutor(max_workers=int(os.environ.get("SC_SELFTEST_JOBS", "5"))) as ex:
         res = list(ex.map(job, corpus))
     bad = 0
     for r in res:
